@@ -121,7 +121,7 @@ def job_detection(size, trim):
                bounds=dict(size=size), exact_floats=False, timeout_s=1800)
 
 
-def job_deviation(size):
+def job_deviation(size, trim=False):
     n, m = size
 
     def build(ctx):
@@ -129,9 +129,15 @@ def job_deviation(size):
 
     def body(A, inp):
         ri, ei = inp['ref'][0], inp['est'][0]
-        r2e, e2r = SEG.deviation(ri, ei)
+        r2e, e2r = SEG.deviation(ri, ei, trim=trim)
         rb = [ri[0, 0]] + [ri[i, 1] for i in range(n)]
         eb = [ei[0, 0]] + [ei[i, 1] for i in range(m)]
+        if trim:
+            # the first and the last boundary of each annotation are not counted
+            rb, eb = rb[1:-1], eb[1:-1]
+            if not rb or not eb:
+                A.require(bool(np.isnan(r2e)) and bool(np.isnan(e2r)), 'segment.deviation[trim]:no-interior-boundary=>nan')
+                return
 
         def median_of_nearest(xs, ys):
             # v is the median of d_x = min_y |x-y|:  (odd) #{d<=v} >= h+1 and #{d>=v} >= h+1 ; even: mean of the two middle values
@@ -158,7 +164,7 @@ def job_deviation(size):
                 for d in ds:
                     hit = A.Or(hit, A.eq(d, got))
                 A.require(hit, 'segment.deviation.%s:median-is-attained' % tag)
-    return Job('C04', 'segment.deviation[%dx%d]' % (n, m), build, body, funcs=['segment.deviation'], bounds=dict(size=size), exact_floats=False, timeout_s=1800)
+    return Job('C04', 'segment.deviation[%dx%d%s]' % (n, m, ',trim' if trim else ''), build, body, funcs=['segment.deviation'], bounds=dict(size=size), exact_floats=False, timeout_s=1800)
 
 
 def job_notes(which, size, strict):
@@ -206,7 +212,7 @@ def job_notes(which, size, strict):
                       'transcription.match_notes'], bounds=dict(size=size), exact_floats=False, timeout_s=1800)
 
 
-def job_cemgil(size):
+def job_cemgil(size, sigma=0.04):
     n, m = size
 
     def build(ctx):
@@ -215,7 +221,6 @@ def job_cemgil(size):
 
     def body(A, inp):
         r, e = inp['ref'][0], inp['est'][0]
-        sigma = 0.04
         c, cbest = BEAT.cemgil(r, e, cemgil_sigma=sigma)
         A.observe('cemgil', c)
 
@@ -245,7 +250,7 @@ def job_cemgil(size):
             a = acc(v) if len(v) else 0.0
             best = a if best is None else (S._max2(best, a) if (S.is_sym(best) or S.is_sym(a)) else max(best, a))
         A.require(A.eq(cbest, best), 'beat.cemgil_best==max-over-metrical-variations')
-    return Job('C04', 'beat.cemgil[%dx%d]' % (n, m), build, body, funcs=['beat.cemgil', 'beat._get_reference_beat_variations'], bounds=dict(size=size), timeout_s=1800)
+    return Job('C04', 'beat.cemgil[%dx%d%s]' % (n, m, '' if sigma == 0.04 else ',sigma=%s' % sigma), build, body, funcs=['beat.cemgil', 'beat._get_reference_beat_variations'], bounds=dict(size=size), timeout_s=1800)
 
 
 def job_melody(n, binary):
@@ -548,10 +553,14 @@ def jobs(tier):
     for which in ('beat.f_measure', 'onset.f_measure'):
         for size in ([(0, 1), (1, 1), (2, 2), (3, 2)] if q else [(0, 1), (1, 1), (2, 2), (3, 2), (3, 3), (4, 3)]):
             js.append(job_event_f(which, size))
+    if q:
+        js.append(job_deviation((2, 2), trim=True))
     for size, trim in ([((1, 1), False), ((2, 1), False), ((2, 2), True)] if q else [((1, 1), False), ((2, 1), False), ((1, 2), False), ((2, 2), False), ((2, 2), True), ((3, 2), True)]):
         js.append(job_detection(size, trim))
     for size in ([(1, 1), (2, 1)] if q else [(1, 1), (2, 1), (2, 2), (3, 2)]):
         js.append(job_deviation(size))
+        if size in ((2, 2), (3, 2)):
+            js.append(job_deviation(size, trim=True))
     for which in ('onset', 'offset', 'no_offset', 'with_offset'):
         big = [(2, 3)] if which in ('onset', 'offset') else [(1, 2), (2, 1)]
         for size in ([(1, 1), (2, 2)] if q else [(1, 1), (2, 2)] + big):
@@ -559,6 +568,7 @@ def jobs(tier):
         js.append(job_notes(which, (1, 2), True))
     for size in ([(1, 1), (2, 1), (1, 2)] if q else [(1, 1), (2, 1), (1, 2), (2, 2), (3, 1)]):
         js.append(job_cemgil(size))
+    js.append(job_cemgil((2, 1), sigma=0.125))
     for n in ((1, 2) if q else (1, 2, 3)):
         js.append(job_melody(n, True))
         js.append(job_melody(n, False))
